@@ -126,6 +126,32 @@ pub mod value {
             }
             Some(NonNull::from(&self.store[idx]).cast::<()>())
         }
+        pub fn is_empty(&self) -> bool {
+            self.len == 0
+        }
+        pub fn capacity(&self) -> usize {
+            CAP
+        }
+        pub unsafe fn push(&mut self, elem_ptr: NonNull<()>) {
+            assert!(self.len < CAP, "shim RawList full");
+            self.store[self.len] = unsafe { *(elem_ptr.as_ptr() as *const u32) };
+            self.len += 1;
+        }
+        pub fn swap(&self, _i: usize, _j: usize) {}
+        pub unsafe fn contains(&self, item: NonNull<()>) -> bool {
+            unsafe { self.index(item).is_some() }
+        }
+        pub unsafe fn index(&self, item: NonNull<()>) -> Option<usize> {
+            let x = unsafe { *(item.as_ptr() as *const u32) };
+            let mut i = 0;
+            while i < CAP {
+                if i < self.len && self.store[i] == x {
+                    return Some(i);
+                }
+                i += 1;
+            }
+            None
+        }
         pub unsafe fn extend(&mut self, other: &Self) {
             let mut i = 0;
             while i < other.len {
@@ -180,13 +206,8 @@ pub mod value {
             /*@FN_ERASED_EQ@*/
         }
 
-        impl ErasedList {
-            /*@FN_NEW@*/
-
-            /*@FN_CONCAT@*/
-
-            /*@FN_GET@*/
-        }
+        // the whole inherent impl (so that helpers a method may call are present)
+        /*@IMPL_ERASEDLIST@*/
 
         include!("harness.rs");
     }
